@@ -20,7 +20,7 @@ func init() {
 	register(&Check{
 		ID:    "C18",
 		Level: "model_checking",
-		Rule: "the full cross product of the CLI's documented configuration space is executed on the binary built from /repo's tree: {-com,-src} x program {find with matches, find without, replace, compile error} x -files {one file, glob of several, nothing matching} x stdout {none,-json,-formatted-json,both} x -json-file {absent,present} x -formatted-json-file {absent,present} x -replace-mode {absent,NEW,NOTHING,OVERWRITE,BOGUS} x -no-output {no,yes} = 3840 invocations, each in a fresh scratch directory; " +
+		Rule: "the full cross product of the CLI's documented configuration space is executed on the binary built from /repo's tree: {-com,-src} x program {find with matches, find without, replace, compile error} x -files {one file, glob of several, nothing matching} x stdout {none,-json,-formatted-json,both} x -json-file {absent,present} x -formatted-json-file {absent,present} x -replace-mode {absent,NEW,NOTHING,OVERWRITE,BOGUS} x -no-output {no,yes} = 3840 invocations, plus the 2880 that name a JSON output file once more with stale, longer output files already present, each in a fresh scratch directory; " +
 			"oracle: exit status; stdout under -json/-formatted-json is exactly one JSON document equal field by field to the library's result computed in-process on a twin directory; JSON files likewise; directory post-state equals the twin's (mode honoured, NEW default); invalid combinations / unknown mode / compile error: non-zero exit, a message, directory unchanged; states = distinct (configuration class, exit status, directory effect) outcomes, transitions = invocations",
 		Assume: []string{"with -no-output, and with zero matches, what the JSON files contain is not fixed by the documentation: only exit status and directory effects of the mode are checked there"},
 		Budget: map[string]int{"quick": 200, "thorough": 900},
@@ -63,6 +63,7 @@ type cliCfg struct {
 	fjFile   bool
 	mode     int // 0 absent 1 NEW 2 NOTHING 3 OVERWRITE 4 BOGUS
 	noOutput bool
+	stale    bool // the JSON output files exist already, holding a longer document of an earlier run
 }
 
 var cliProgs = []string{"find all 'a' (maybe not ' ') = x", "find all 'zzz'", "replace all 'a' with 'XY'", "find all ("}
@@ -98,15 +99,17 @@ func (k cliCfg) args() []string {
 	return a
 }
 
-func cliSetup(dir string) {
+func cliSetup(dir string, staleOutputs bool) {
 	os.WriteFile(filepath.Join(dir, "a.txt"), []byte("ab a%d\nxa\"b a\\ 100% a%s\n"), 0o644)
 	os.WriteFile(filepath.Join(dir, "b.txt"), []byte("bab"), 0o644)
 	os.WriteFile(filepath.Join(dir, "c.md"), []byte("aaa"), 0o644)
 	os.WriteFile(filepath.Join(dir, "a.txt.vored"), []byte("STALE STALE STALE STALE"), 0o644)
 	// output files left over from an earlier, larger run: they must be replaced, not overwritten in place
-	stale := "[" + strings.Repeat("{\"stale\":true},", 400) + "{}]"
-	os.WriteFile(filepath.Join(dir, "out.json"), []byte(stale), 0o644)
-	os.WriteFile(filepath.Join(dir, "fout.json"), []byte(stale), 0o644)
+	if staleOutputs {
+		stale := "[" + strings.Repeat("{\"stale\":true},", 400) + "{}]"
+		os.WriteFile(filepath.Join(dir, "out.json"), []byte(stale), 0o644)
+		os.WriteFile(filepath.Join(dir, "fout.json"), []byte(stale), 0o644)
+	}
 }
 
 func runC18(c *Ctx) {
@@ -121,9 +124,14 @@ func runC18(c *Ctx) {
 						for _, fj := range []bool{false, true} {
 							for mode := 0; mode < 5; mode++ {
 								for _, no := range []bool{false, true} {
-									k := cliCfg{src, prog, fs, so, jf, fj, mode, no}
-									if c.Unit(func() string { return strings.Join(k.args(), " ") }) {
-										c18Case(c, k)
+									for _, st := range []bool{false, true} {
+										if st && !jf && !fj {
+											continue // stale output files only matter when an output file is named
+										}
+										k := cliCfg{src, prog, fs, so, jf, fj, mode, no, st}
+										if c.Unit(func() string { return fmt.Sprintf("%s (stale outputs: %v)", strings.Join(k.args(), " "), st) }) {
+											c18Case(c, k)
+										}
 									}
 								}
 							}
@@ -144,7 +152,7 @@ func c18Case(c *Ctx, k cliCfg) {
 	twin, _ := os.MkdirTemp("", "vmc-c18t-")
 	defer os.RemoveAll(twin)
 	for _, d := range []string{dir, twin} {
-		cliSetup(d)
+		cliSetup(d, k.stale)
 		if k.src {
 			os.WriteFile(filepath.Join(d, "prog.vore"), []byte(cliProgs[k.prog]), 0o644)
 		}
